@@ -119,6 +119,8 @@ impl PeakRecordingPool {
 
     /// Peak reservation, in bytes, since the last [`Self::reset_peak`].
     pub fn peak_reserved(&self) -> usize {
+        #[cfg(datafusion_verif)]
+        datafusion_common::verif::sync_point("peak_recording:122");
         self.peak.load(Ordering::Relaxed)
     }
 
@@ -127,6 +129,8 @@ impl PeakRecordingPool {
     /// Unlike [`Self::peak_reserved`] this is never reset, so it reports the
     /// peak across every query that shared this pool.
     pub fn max_reserved(&self) -> usize {
+        #[cfg(datafusion_verif)]
+        datafusion_common::verif::sync_point("peak_recording:130");
         self.max.load(Ordering::Relaxed)
     }
 
@@ -138,6 +142,8 @@ impl PeakRecordingPool {
     /// benchmark loaded up front, say — stays in the reading, since the query
     /// runs with those bytes reserved.
     pub fn reset_peak(&self) {
+        #[cfg(datafusion_verif)]
+        datafusion_common::verif::sync_point("peak_recording:141");
         self.peak
             .store(self.reserved.load(Ordering::Relaxed), Ordering::Relaxed);
     }
@@ -153,9 +159,15 @@ impl PeakRecordingPool {
     /// for — `grow` is infallible and `try_grow` either grants `additional` or
     /// returns an error, leaving the reservation untouched.
     fn record(&self, additional: usize) {
+        #[cfg(datafusion_verif)]
+        datafusion_common::verif::sync_point("peak_recording:156");
         let reserved =
             self.reserved.fetch_add(additional, Ordering::Relaxed) + additional;
+        #[cfg(datafusion_verif)]
+        datafusion_common::verif::sync_point("peak_recording:158");
         self.peak.fetch_max(reserved, Ordering::Relaxed);
+        #[cfg(datafusion_verif)]
+        datafusion_common::verif::sync_point("peak_recording:159");
         self.max.fetch_max(reserved, Ordering::Relaxed);
     }
 }
@@ -198,6 +210,8 @@ impl MemoryPool for PeakRecordingPool {
 
     fn shrink(&self, reservation: &MemoryReservation, shrink: usize) {
         self.inner.shrink(reservation, shrink);
+        #[cfg(datafusion_verif)]
+        datafusion_common::verif::sync_point("peak_recording:201");
         self.reserved.fetch_sub(shrink, Ordering::Relaxed);
     }
 
